@@ -4,7 +4,7 @@
    All theorems are about [run] = the interleaving semantics of Model.v over arbitrary label lists,
    the same [step] function that the correspondence run (CaseDefs.v, exec_ev) executes. *)
 From Coq Require Import List ZArith Permutation.
-From C18 Require Import Model ProofsRelease ProofsManaged ProofsCoherent ProofsAcct ProofsBound.
+From C18 Require Import Model ProofsRelease ProofsManaged ProofsCoherent ProofsPayload ProofsAcct ProofsBound.
 Import ListNotations.
 
 (* Coherence, all interleavings (no domain restriction): a lookup that returned a value returned a
@@ -16,6 +16,14 @@ Theorem C18_get_coherent : forall lim mg es ls st,
   forall t th, nth_error (threads st) t = Some th -> returned_ok st th.
 Proof. exact get_coherent. Qed.
 Print Assumptions C18_get_coherent.
+
+(* No poisoning, all interleavings: the payload of a cache maps a key to at most one entry, and never to
+   an abandoned one (the entry of a loader that returned an error or panicked): after a failed load a
+   later lookup of the key hits a valid entry, waits for a loading one, or loads again. *)
+Theorem C18_no_poisoning : forall lim mg es ls st,
+  run (init lim mg es) ls = Some st -> inv_pay (entries st).
+Proof. exact no_poisoning. Qed.
+Print Assumptions C18_no_poisoning.
 
 (* Accounting, all interleavings inside the domain (race_free: no Release of a cache while one of its
    entries is loading; no CleanEmptyGenerations between a save's unlock and its Add for the dropped
